@@ -92,6 +92,41 @@ pub fn judge(x: &[u8], rec: &mut Recorder, kind: &str) {
     if rec.verbose {
         println!("  {} :: a={:?} b={:?} c={:?}", obs, a.class(), b.class(), c.class());
     }
+    // "returns that parser's header unchanged and tags it with the matching version": the tagging
+    // itself - HeaderResult::from(result) for both result types - keeps the result and delegates
+    // the completeness flags (every fourth input)
+    if bad.is_none() && hash_bytes(x) % 4 == 0 {
+        use ppp::{HeaderResult, PartialResult};
+        let t = guard(|| {
+            let r2 = ppp::v2::Header::try_from(x);
+            let f2 = (r2.is_incomplete(), r2.is_complete());
+            let ok2 = r2.is_ok();
+            let h2 = HeaderResult::from(r2);
+            let tag2 = matches!(h2, HeaderResult::V2(_));
+            let g2 = (h2.is_incomplete(), h2.is_complete());
+            let same2 = match &h2 {
+                HeaderResult::V2(r) => r.is_ok() == ok2 && o2_of(r) == { let mut o = a.clone(); if let O2::Ok { inc, comp, .. } | O2::Err { inc, comp, .. } = &mut o { *inc = f2.0; *comp = f2.1; } o },
+                _ => false,
+            };
+            let r1 = ppp::v1::Header::try_from(x);
+            let f1 = (r1.is_incomplete(), r1.is_complete());
+            let ok1 = r1.is_ok();
+            let h1 = HeaderResult::from(r1);
+            let tag1 = matches!(h1, HeaderResult::V1(_));
+            let g1 = (h1.is_incomplete(), h1.is_complete());
+            let same1 = match &h1 {
+                HeaderResult::V1(r) => r.is_ok() == ok1,
+                _ => false,
+            };
+            (tag2 && same2 && f2 == g2, tag1 && same1 && f1 == g1, format!("v2: tagged-V2={} same-result={} flags {:?} -> {:?}; v1: tagged-V1={} same-result={} flags {:?} -> {:?}", tag2, same2, f2, g2, tag1, same1, f1, g1))
+        });
+        rec.events(2);
+        match t {
+            Ok((true, true, _)) => rec.class("from-impls|tag-and-flags-kept", || show(x, 60)),
+            Ok((_, _, d)) => bad = Some(("from-impl-changes-result", d)),
+            Err(m) => bad = Some(("from-impl-changes-result", format!("panic: {}", m))),
+        }
+    }
     if let Some((rule, detail)) = bad {
         rec.violation(rule, enc_case(kind, &x[..x.len().min(70_100)]), skeleton_text(&x[..x.len().min(60)]), format!("{} on {:?}: {}", rule, show(x, 120), detail));
     }
